@@ -5,7 +5,7 @@ BASE = dict(
     NPre=0, NPost=0, NPc=0, AsyncPre=[], AsyncPost=[], AsyncPc=[],
     GetModes=["nb", "bl"], CreateTO=["none"], RecycleTO=["none"], HasRuntime=True,
     ResizeTargets=[], AllowClose=False, AllowRetain=False, AllowTake=False, AllowDropPool=False,
-    AllowFail=True, AllowSuspend=True, AllowCancel=True, AllowPanic=False, ThreadLevel=True,
+    AllowFail=True, AllowSuspend=True, AllowCancel=True, AllowPanic=False, ThreadLevel=True, HoldAndWait=True,
 )
 
 STRUCT = ["TypeOK", "UsersExact", "SizeExact", "CreatingExact", "PermitsCover", "NoWaiterWithFreePermit"]
@@ -406,3 +406,10 @@ for pid, (quick, thorough) in {
 REFINE = C(Tasks=["t1", "t2"], InitMax=2, MaxObjs=3, Budget=4, NPost=1, AsyncPost=[1], AllowTake=True, AllowPanic=True)
 for pid in ("C01", "C02"):
     PROPS[pid]["extra"] = {"thorough": ["counting"], "quick": [], "refine_consts": REFINE}
+
+LIVE = {"spec": "FairSpec", "invariants": ["TypeOK"], "actprops": ["Live_C02d"]}
+PROPS["C02"]["configs"]["quick"].append(
+    ("live", C(InitMax=1, MaxObjs=2, Budget=3, GetModes=["bl", "timed"], HoldAndWait=False), False, LIVE))
+PROPS["C02"]["configs"]["thorough"].append(
+    ("live", C(Tasks=["t1", "t2", "t3"], InitMax=2, MaxObjs=3, Budget=4, GetModes=["bl", "timed"], HoldAndWait=False,
+               ResizeTargets=[1, 3], AllowTake=True), False, LIVE))
